@@ -57,7 +57,7 @@ fn o_typed(c: &FaultCase, st: &mut Stats) -> Result<(), String> {
     Ok(())
 }
 
-fn o_token(s: &String, st: &mut Stats) -> Result<(), String> {
+pub fn o_token(s: &String, st: &mut Stats) -> Result<(), String> {
     match strict(s) {
         Strict::Reject(why) => {
             for (name, accepted) in [
